@@ -4,4 +4,6 @@ go 1.20
 
 require github.com/ecodeclub/ekit v0.0.0
 
+require golang.org/x/exp v0.0.0-20231006140011-7918f672742d // indirect
+
 replace github.com/ecodeclub/ekit => /repo
